@@ -233,9 +233,9 @@ func runC16(w *mon.W) {
 				name = "Supplier " + string(letters[i])
 			}
 			if r.Intn(4) == 0 { // names aligned with several blanks or a tab inside are names like any other
-				name = strings.Replace(name, " ", []string{"  ", "   ", "  -  ", " \t"}[r.Intn(4)], 1+r.Intn(2))
+				name = strings.Replace(name, " ", []string{"  ", "   ", "  -  ", " \t", "        ", strings.Repeat(" ", 9+r.Intn(12))}[r.Intn(6)], 1+r.Intn(2))
 			}
-			name += fmt.Sprintf(" (%d/%02d)", 1+r.Intn(12), r.Intn(22))
+			name += fmt.Sprintf("%s(%d/%02d)", []string{" ", " ", " ", strings.Repeat(" ", 8+r.Intn(10))}[r.Intn(4)], 1+r.Intn(12), r.Intn(22)) // dates now and then aligned into a column of their own
 			if len(avail) > 0 && r.Intn(12) == 0 {
 				name = suppliers[avail[r.Intn(len(avail))]] // a supplier kept under its old and its new letter: same text, two codes
 				aliasRows++
